@@ -11,8 +11,10 @@ from harness import gen_values as gv
 from harness import valcodec as vc
 
 STREAMS = ['codec-valid', 'codec-large', 'codec-small-types', 'codec-malformed-values', 'codec-malformed-data',
-           'codec-limits', 'codec-mixed-variants']
-THEOREMS = ['Spec.decode_encode', 'C01_roundtrip', 'C01_roundtrip_valid', 'C01_roundtrip_conf', 'C01_roundtrip_checked', 'C01_marshal_arity']
+           'codec-limits', 'codec-mixed-variants', 'codec-deep-variants']
+THEOREMS = ['Spec.decode_encode', 'C01_roundtrip', 'C01_roundtrip_valid', 'C01_roundtrip_conf', 'C01_roundtrip_checked', 'C01_marshal_arity',
+            'C01_roundtrip_any_fuel', 'C01_roundtrip_fuel_free', 'C01_roundtrip_valid_fuel_free',
+            'C01_roundtrip_noVariant_fuel_free', 'C01_roundtrip_conf_fuel_free', 'C01_roundtrip_checked_fuel_free']
 TRUSTED_BASE = [
     "CPython struct.pack/unpack_from, codecs utf-8/ascii, dict, zip/generators, int->float conversion: mirrored in "
     "Wire/Code.lean (pack, unpackFrom, utf8*, buildDict, marshalSeq, intToDouble), validated by the streams, not proved",
@@ -24,12 +26,16 @@ ASSUMPTIONS = [
     'descriptors (h): the caller passes the same oobFDs list to unmarshal that marshal filled',
     'dict keys pairwise distinct under Python equality (a Python dict guarantees it)',
     'strings without lone surrogates (not representable in the model; txdbus raises UnicodeEncodeError)',
+    "CPython's recursion limit is not modelled: the driver runs `unmarshal` at the fuel Cost.codeFuel = |sig| + (|data| - off) + 1 "
+    "of C01_roundtrip_fuel_free, at which the model never answers RecursionError; a RecursionError of the real decoder "
+    "(nested variants ~490 deep under the default limit of 1000 frames) is recorded, not compared (stream codec-deep-variants)",
 ]
 RULE = ('type-directed: a signature from the DBus grammar (harness/gen_values.gen_types), spec values with boundary '
         'values favoured (plus a size/depth stream: arrays to 300 elements, strings to 70 000 bytes, signatures to 255, nesting 32+32), '
         'a fixed list of signatures AT the limits of the grammar (32 arrays, 32 structs, 255 characters; top level, in containers, '
         'inferred inside variants), variants / a{sv} values holding containers of members of different classes (every pair '
-        'first class x later class, then random mixtures), '
+        'first class x later class, then random mixtures), data of 1..700 nested variants (fixed depths around 300, the former '
+        'fixed fuel of the driver, plus random ones; decode only: marshal cannot produce them), '
         'a random Python spelling (list/tuple/dbusOrder object, wrappers, bytearray, dict); every case '
         'is run at both byte orders and offsets 0..15 by the oracle and at 2 (byte order, offset) pairs by the model; '
         'distinct = distinct canonical JSON of (signature, values, offset, byte order); non-trivial = at least one value')
@@ -523,6 +529,49 @@ def small_cases(rng, max_len, per_type):
             yield [ty], [sv], [pv], fds, [gv.expected_decoded(ty, sv)]
 
 
+DEEP_DEPTHS = [1, 2, 31, 64, 150, 290, 296, 297, 298, 299, 300, 301, 302, 350, 400, 450, 520, 700]
+DEEP_LEAVES = {'y': b'\x01y\x00\x07', 'g': b'\x01g\x00\x02ai\x00', 'v-truncated': b'\x01y\x00', 'unknown-code': b'\x01z\x00\x07'}
+
+
+def deep_variant_case(depth, leaf, off, le):
+    """`unmarshal('v', ...)` on `depth` variants holding variants around a leaf of alignment 1 (no padding anywhere, so
+    the bytes do not depend on the offset or the byte order): the nesting is in the DATA, not in the signature."""
+    return ('v', PREFIX[:off] + b'\x01v\x00' * depth + DEEP_LEAVES[leaf] + (b'' if leaf == 'v-truncated' else SUFFIX), off, le, None)
+
+
+def run_deep_variants(ctx, rng):
+    """Nesting that only the data pays for.  The driver runs the model at Cost.codeFuel (computed from the lengths of
+    signature and data), so the model follows the real decoder through every depth CPython's stack allows - with the
+    fixed fuel 300 it used to have, the model answered RecursionError from 299 nested variants on while the real decoder
+    returns the value up to ~490.  A RecursionError of the REAL decoder is CPython's limit (not modelled): recorded, not
+    compared - so a refactoring that costs more frames per level only shortens the compared range."""
+    cases = [(d, 'y') for d in DEEP_DEPTHS]
+    cases += [(rng.randrange(1, 460), rng.choice(sorted(DEEP_LEAVES))) for _ in range(ctx.scale(quick=24, thorough=300))]
+    cases += [(d, leaf) for d in (299, 400) for leaf in sorted(DEEP_LEAVES) if leaf != 'y']
+    lines, keep = [], []
+    for depth, leaf in cases:
+        item = deep_variant_case(depth, leaf, rng.randrange(16), rng.random() < 0.5)
+        lines.append(unmarshal_line(*item))
+        keep.append((depth, leaf, item))
+    out = ctx.model(lines)
+    compared_beyond = 0
+    for i, (depth, leaf, item) in enumerate(keep):
+        ctx.case('codec-deep-variants', sample={'depth': depth, 'leaf': leaf, 'off': item[2], 'le': item[3]})
+        impl = canon_unmarshal(impl_unmarshal(*item))
+        ctx.impl_trace()
+        band = '<299' if depth < 299 else '299-497' if depth < 498 else '>=498'
+        ctx.stat('deep-variants:depth%s:%s' % (band, impl.split()[0] + (' ' + impl.split()[1] if impl.startswith('err') else '')))
+        if impl == 'err RecursionError':
+            ctx.stat('deep-variants:cpython-recursion-limit (not compared)')
+            continue
+        if depth >= 299:
+            compared_beyond += 1
+        if out is not None and out[i] != impl:
+            ctx.disagree('codec-deep-variants', {'op': 'unmarshal', 'line': lines[i], 'depth': depth, 'leaf': leaf}, out[i], impl)
+    ctx.note('codec-deep-variants: %d cases, %d of them compared at depths the former fixed fuel (300) could not follow'
+             % (len(keep), compared_beyond))
+
+
 def run(ctx):
     register()
     rng = ctx.rng
@@ -661,6 +710,9 @@ def run(ctx):
     check_marshal_batch(ctx, 'codec-mixed-variants', mbatch)
     check_unmarshal_batch(ctx, 'codec-mixed-variants', ubatch)
     check_certified(ctx, 'codec-mixed-variants', cert)
+
+    # ---- nesting paid for by the data only (nested variants), through and beyond the driver's former fixed fuel
+    run_deep_variants(ctx, rng)
 
 
 def replay_case(ctx, case, stream):
